@@ -426,6 +426,8 @@ def render_param(p):
 
 def render_source(spec, kind):
     lines = []
+    # two slotted attrs classes with fields cannot be combined by multiple inheritance (CPython lay-out conflict)
+    attrs_deco = "@attrs.define(slots=False)" if any(len(c["bases"]) > 1 for c in spec["classes"]) else "@attrs.define"
     for c in spec["classes"]:
         bases = []
         for b in c["bases"]:
@@ -448,7 +450,7 @@ def render_source(spec, kind):
         if kind == "dataclass":
             lines.append("@dataclass")
         elif kind == "attrs":
-            lines.append("@attrs.define")
+            lines.append(attrs_deco)
         lines.append(f'class {c["name"]}' + (f'({", ".join(bases)})' if bases else "") + ":")
         if c["fields"]:
             lines.extend(f"    {n}: {rg.render(rg.freeze(t))}" for n, t in c["fields"])
@@ -824,7 +826,7 @@ def replay(case):
 
 # =============================================================================================== driver
 
-N_SHARDS = 256
+N_SHARDS = 64
 
 
 def shard(arg):
